@@ -284,6 +284,43 @@ theorem isNameAttribute_total (oid : List Nat) : isNameAttribute oid ≠ .panic 
     · have : oid[3]? = some oid[3] := by simp [h4]
       rw [this]; simp
 
+/-- `IsFQDN`'s prefix stripping ends (the model is structurally recursive) and leaves no `?.` in front;
+    what it returns is a suffix of its input -/
+theorem removeQuestionMarks_no_prefix : ∀ (s : List Nat), ∀ rest, removeQuestionMarks s ≠ 63 :: 46 :: rest
+  | [], _ => by simp [removeQuestionMarks]
+  | [a], _ => by simp [removeQuestionMarks]
+  | a :: b :: t, rest => by
+    by_cases h : a = 63 ∧ b = 46
+    · obtain ⟨rfl, rfl⟩ := h
+      simp only [removeQuestionMarks]
+      exact removeQuestionMarks_no_prefix t rest
+    · have : removeQuestionMarks (a :: b :: t) = a :: b :: t := by
+        unfold removeQuestionMarks
+        split
+        · rename_i heq; simp at heq; exact absurd ⟨heq.1, heq.2.1⟩ h
+        · rfl
+      rw [this]; intro heq; simp at heq; exact h ⟨heq.1, heq.2.1⟩
+
+theorem removeQuestionMarks_suffix : ∀ (s : List Nat), ∃ pre, s = pre ++ removeQuestionMarks s
+  | [] => ⟨[], by simp [removeQuestionMarks]⟩
+  | [a] => ⟨[], by simp [removeQuestionMarks]⟩
+  | a :: b :: t => by
+    by_cases h : a = 63 ∧ b = 46
+    · obtain ⟨rfl, rfl⟩ := h
+      obtain ⟨pre, hp⟩ := removeQuestionMarks_suffix t
+      refine ⟨63 :: 46 :: pre, ?_⟩
+      simp only [removeQuestionMarks, List.cons_append]
+      rw [← hp]
+    · refine ⟨[], ?_⟩
+      have : removeQuestionMarks (a :: b :: t) = a :: b :: t := by
+        unfold removeQuestionMarks
+        split
+        · rename_i heq; simp at heq; exact absurd ⟨heq.1, heq.2.1⟩ h
+        · rfl
+      simp [this]
+
+example : fqdnArg [42, 46, 63, 46, 63, 46, 97] = [97] ∧ fqdnArg [63, 97] = [63, 97] ∧ fqdnArg [42] = [42] ∧ fqdnArg [42, 97, 46] = [42, 97, 46] := by decide
+
 /-- `reversedLabelsToIPv6` (32 labels, four per step, counting down): every index it touches is in range -/
 theorem v6_indices_in_range : (v6AllIndices 32).all (fun i => decide (0 ≤ i) && decide (i < 32)) = true := by decide
 
